@@ -93,6 +93,73 @@ Proof.
   - unfold rf_aligned, rf0. cbn [rf_from]. apply N.eqb_eq. apply N.mod_0_l. lia.
 Qed.
 
+(* ---------- the direct writes of an initialisation ---------- *)
+Definition init_wr (W h : N) (w : wr) : Prop :=
+  exists a c, w = WWindow a (Some c) /\ a mod W = 0 /\ a + W - 1 <= h.
+
+Lemma fill_w_ok : forall W d h cnt rf from, 0 < W -> rf_aligned W rf = true ->
+  from + N.of_nat cnt <= h + 1 -> Forall (init_wr W h) (rf_fill_w W d rf from cnt).
+Proof.
+  induction cnt; simpl; intros rf from HW Ha Hb; [constructor|].
+  destruct (header d from); [|constructor].
+  destruct (rf_insert W rf from (b_bloom b)) as [[ws rf']|] eqn:E; [|constructor].
+  destruct (rf_insert_shape W rf _ _ _ _ HW Ha E) as [Ha' Hws].
+  apply Forall_app. split.
+  - destruct Hws as [->|[c [-> Hto]]]; [constructor|]. constructor; [|constructor].
+    exists (rf_from rf), c. split; auto. split; [apply N.eqb_eq; exact Ha|lia].
+  - apply IHcnt; auto. lia.
+Qed.
+
+Lemma fill_range_w_ok : forall W d h rf from, 0 < W -> rf_aligned W rf = true ->
+  Forall (init_wr W h) (rf_fill_range_w W d rf from h).
+Proof.
+  intros W d h rf from HW Ha. unfold rf_fill_range_w.
+  destruct (from <=? h + 1) eqn:E.
+  - apply N.leb_le in E. apply fill_w_ok; auto. lia.
+  - apply N.leb_gt in E. replace (N.to_nat (h + 1 - from)) with O by lia. constructor.
+Qed.
+
+Lemma reinit_w_ok : forall W d h, 0 < W -> consistent W d = true -> d_height d = Some h ->
+  Forall (init_wr W h) (reinit_w W d).
+Proof.
+  intros W d h HW Hc Hh. unfold reinit_w. rewrite Hh.
+  pose proof (proj1 (consistent_some W d h Hh) Hc) as [Hsn [hb I]].
+  destruct I as [i_head0 i_full0 i_ent0 i_link0 i_state0 i_win0].
+  assert (Hrb : Forall (init_wr W h) (rf_rebuild_w W d h)).
+  { unfold rf_rebuild_w. destruct (find_anchor W d (align W (floor0 d)) (align W h) (N.to_nat (align W h / W))) as [a|] eqn:E.
+    - apply fill_range_w_ok; auto. unfold rf_aligned, rf_new. simpl.
+      apply find_anchor_window in E as [c Hgw]. apply get_window_In in Hgw. apply i_win0 in Hgw as [M _].
+      apply N.eqb_eq. apply mod0_add; auto.
+    - apply fill_range_w_ok; auto. unfold rf_aligned, rf_new. simpl. apply N.eqb_eq. apply align_mod; auto. }
+  unfold snap_ok in Hsn. destruct (d_snap d) as [s|]; auto.
+  destruct (rf_next s =? h + 1); [constructor|].
+  destruct ((rf_next s <=? h) && (h <=? rf_to W s)); auto.
+  apply fill_range_w_ok; auto.
+Qed.
+
+Lemma init_wr_consistent : forall W d h w, consistent W d = true -> d_height d = Some h -> init_wr W h w ->
+  consistent W (apply_batch d [w]) = true /\ d_height (apply_batch d [w]) = Some h.
+Proof.
+  intros W d h w Hc Hh (a & c & -> & Ha & Hl). simpl. split; [|exact Hh].
+  pose proof (proj1 (consistent_some W d h Hh) Hc) as [Hsn [hb I]].
+  destruct I as [i_head0 i_full0 i_ent0 i_link0 i_state0 i_win0].
+  apply (proj2 (consistent_some W (set_windows d ((a, c) :: win_del a (d_windows d))) h Hh)). split; [exact Hsn|]. exists hb. constructor; auto.
+  intros a0 c0 Hin. simpl in Hin. destruct Hin as [Heq|Hin].
+  - inversion Heq; subst. auto.
+  - apply In_win_del in Hin. eauto.
+Qed.
+
+Lemma good_batches_prefix : forall W h bs d,
+  (forall b, In b bs -> forall d', consistent W d' = true -> d_height d' = Some h ->
+      consistent W (apply_batch d' b) = true /\ d_height (apply_batch d' b) = Some h) ->
+  consistent W d = true -> d_height d = Some h ->
+  forall j, consistent W (apply_batches d (firstn j bs)) = true.
+Proof.
+  induction bs; intros d Hb Hc Hh j; destruct j; simpl; auto.
+  destruct (Hb a (or_introl eq_refl) d Hc Hh) as [C1 C2].
+  apply IHbs; auto. intros b Hin. apply Hb. right; auto.
+Qed.
+
 (* ---------- one operation ---------- *)
 Definition Good (W : N) (st : disk * rfilter) : Prop :=
   consistent W (fst st) = true /\ rf_aligned W (snd st) = true.
@@ -148,9 +215,22 @@ Proof.
   - (* Snapshot *)
     cbn [fst snd]. split; [|exact Ha].
     destruct (rf_err m); [exact Hnil | apply Hone; apply (snap_consistent W d m); auto].
-  - (* Restart *)
-    cbn [fst snd]. split; [|exact Ha].
-    destruct (graceful && negb (rf_err m)); [apply Hone; apply (snap_consistent W d m); auto | exact Hnil].
+  - (* Restart: optional snapshot, then the direct writes of the initialisation, one commit each *)
+    cbn [fst snd].
+    set (bs0 := if graceful && negb (rf_err m) then [[WSnap m]] else []).
+    assert (Hd1 : consistent W (apply_batches d bs0) = true /\ d_height (apply_batches d bs0) = d_height d).
+    { subst bs0. destruct (graceful && negb (rf_err m)); simpl; auto. split; auto. apply (snap_consistent W d m); auto. }
+    destruct Hd1 as [Hc1 Hh1]. split; [|apply reinit_aligned; auto].
+    destruct (d_height d) as [h|] eqn:Hh.
+    + apply (good_batches_prefix W h); auto.
+      intros b Hin d' Hc' Hh'. apply in_app_or in Hin as [Hin|Hin].
+      * subst bs0. destruct (graceful && negb (rf_err m)); [|destruct Hin].
+        destruct Hin as [<-|[]]. split; [apply snap_consistent; auto|exact Hh'].
+      * apply in_map_iff in Hin as [w [<- Hw]].
+        pose proof (reinit_w_ok W _ h HW Hc1 Hh1) as F. rewrite Forall_forall in F.
+        apply init_wr_consistent; auto.
+    + unfold reinit_w. rewrite Hh1. simpl. rewrite app_nil_r.
+      subst bs0. destruct (graceful && negb (rf_err m)); [apply Hone; apply (snap_consistent W d m); auto | exact Hnil].
 Qed.
 
 Lemma firstn_all' : forall {A} (l : list A), firstn (length l) l = l.
@@ -162,7 +242,6 @@ Proof.
   destruct (op_batches_good W st o (length (fst (plan W o (fst st) (snd st)))) HW HG Hok) as [C A].
   rewrite firstn_all in C. unfold step.
   destruct (plan W o (fst st) (snd st)) as [bs m'] eqn:E. simpl in *. split; simpl; auto.
-  destruct o; simpl; auto. apply reinit_aligned; auto.
 Qed.
 
 (* ---------- crash ---------- *)
@@ -195,28 +274,30 @@ Proof.
     + exists O, k. reflexivity.
 Qed.
 
-Lemma plan_single : forall W o d m, (forall e, o <> Prune e) -> (length (fst (plan W o d m)) <= 1)%nat.
+Lemma plan_single : forall W o d m, (forall e, o <> Prune e) -> is_restart o = false ->
+  (length (fst (plan W o d m)) <= 1)%nat.
 Proof.
-  intros W o d m Hp. destruct o; simpl.
+  intros W o d m Hp Hr. destruct o; simpl; try discriminate.
   - destruct (succession_ok d b); simpl; auto. destruct (rf_insert W m (b_num b) (b_bloom b)) as [[? ?]|]; simpl; auto.
   - destruct (d_height d); simpl; auto. destruct (find_num n (d_fam d FSU)); simpl; auto.
     destruct (header d n); simpl; auto. destruct (rf_reorg W d m) as [[?|] ?]; simpl; auto.
   - exfalso. eapply Hp; eauto.
   - auto.
   - destruct (rf_err m); simpl; auto.
-  - destruct (graceful && negb (rf_err m)); simpl; auto.
 Qed.
 
-(* without prune every crash image is the disk after a prefix of COMPLETE operations *)
+(* without prune and restart every crash image is the disk after a prefix of COMPLETE operations *)
 Lemma crash_atomic : forall W ops k st, (forall e, ~ In (Prune e) ops) ->
+  (forall o, In o ops -> is_restart o = false) ->
   exists n, crash_disk W ops k st = fst (run W (firstn n ops) st).
 Proof.
-  induction ops; simpl; intros k st Hp.
+  induction ops; simpl; intros k st Hp Hr.
   - exists O. reflexivity.
-  - pose proof (plan_single W a (fst st) (snd st) ltac:(intros e X; apply (Hp e); left; auto)) as L.
+  - pose proof (plan_single W a (fst st) (snd st) ltac:(intros e X; apply (Hp e); left; auto) (Hr a (or_introl eq_refl))) as L.
     destruct (Nat.leb (length (fst (plan W a (fst st) (snd st)))) k) eqn:E.
     + destruct (IHops (k - length (fst (plan W a (fst st) (snd st))))%nat (step W st a)) as [n H].
       { intros e X. apply (Hp e). right; auto. }
+      { intros o X. apply Hr. right; auto. }
       exists (S n). simpl. exact H.
     + exists O. simpl. apply Nat.leb_gt in E.
       assert (k = O) by lia. subst k. reflexivity.
@@ -225,20 +306,13 @@ Qed.
 (* ---------- fault ---------- *)
 (* a failed commit leaves the disk exactly as the batches committed before it left it; for the
    single-batch operations: unchanged *)
-Lemma fault_disk_one : forall W o d m, (forall e, o <> Prune e) ->
-  forall r, exec_fault W (o :: r) 0 (d, m) =
-            (if Nat.leb (length (fst (plan W o d m))) 0 then exec_fault W r 0 (step W (d, m) o)
-             else run W r (d, after_mem W o d (snd (plan W o d m)))).
+Lemma fault_step_disk : forall W o d m k, is_restart o = false ->
+  (k < length (fst (plan W o d m)))%nat ->
+  fst (exec_fault W [o] k (d, m)) = apply_batches d (firstn k (fst (plan W o d m))).
 Proof.
-  intros. simpl. destruct (plan W o d m) as [bs m'] eqn:E. simpl.
-  destruct (Nat.leb (length bs) 0); reflexivity.
-Qed.
-
-Lemma fault_step_disk : forall W o d m k bs m', plan W o d m = (bs, m') -> (k < length bs)%nat ->
-  fst (exec_fault W [o] k (d, m)) = apply_batches d (firstn k bs).
-Proof.
-  intros W o d m k bs m' E Hk. simpl. rewrite E.
-  destruct (Nat.leb (length bs) k) eqn:L; [apply Nat.leb_le in L; lia|]. reflexivity.
+  intros W o d m k Hr Hk. simpl.
+  destruct (Nat.leb (length (fst (plan W o d m))) k) eqn:L; [apply Nat.leb_le in L; lia|].
+  unfold fault_op. destruct (plan W o d m) as [bs m'] eqn:E. destruct o; try discriminate; reflexivity.
 Qed.
 
 (* failed store away from a window end: the filter keeps its window and loses no bit *)
@@ -263,16 +337,16 @@ Proof.
     unfold rf_superset. simpl. rewrite H2. simpl. apply cols_sub_cons. exact H3.
 Qed.
 
-Lemma fault_disk_single : forall W o d m, (forall e, o <> Prune e) ->
+Lemma fault_disk_single : forall W o d m, (forall e, o <> Prune e) -> is_restart o = false ->
   fst (plan W o d m) <> [] -> fst (exec_fault W [o] 0 (d, m)) = d.
 Proof.
-  intros W o d m Hp Hne. simpl. destruct (plan W o d m) as [bs m'] eqn:E. simpl in *.
-  destruct bs; [contradiction|]. reflexivity.
+  intros W o d m Hp Hr Hne. rewrite fault_step_disk; auto.
+  destruct (fst (plan W o d m)); [contradiction|simpl; lia].
 Qed.
 
 (* failing the k-th commit of a prune leaves exactly the batches before it *)
 Lemma fault_disk_prune : forall W e d m k, (k < length (prune_plan W d e))%nat ->
   fst (exec_fault W [Prune e] k (d, m)) = apply_batches d (firstn k (prune_plan W d e)).
 Proof.
-  intros. eapply fault_step_disk; eauto. reflexivity.
+  intros. apply (fault_step_disk W (Prune e) d m k); auto.
 Qed.
